@@ -157,10 +157,48 @@ def transformations(rng, case):
     return out
 
 
+def tie_split_case(rng):
+    """Categorical feature whose two middle modalities have exactly the same target rate while the only viable 2-group
+    split separates them: the fitted partition then depends on how the tie is broken -- which must not depend on row
+    order, index labels or (order-preserving) names."""
+    c = gen.Case()
+    c.kind = gen.pick(rng, ["binary", "continuous"])
+    unit = int(gen.pick(rng, [20, 40]))
+    # shares in twentieths: low, mid_a, mid_b, top ; low and top alone are below min_freq_mod, the middle split is viable either way
+    shares = gen.pick(rng, [(4, 4, 7, 5), (4, 3, 8, 5), (5, 3, 7, 5), (3, 5, 7, 5), (4, 7, 4, 5)])
+    names = ["c_low", "k_mid", "m_mid", "z_top"]
+    if rng.random() < 0.5:
+        names = ["c_low", "m_mid", "k_mid", "z_top"]
+    rates = (0.2, 0.5, 0.5, 0.8)
+    vals, ys = [], []
+    for name, sh, r in zip(names, shares, rates):
+        m = sh * unit
+        vals += [name] * m
+        if c.kind == "binary":
+            yy = np.zeros(m)
+            yy[: int(round(r * m))] = 1
+        else:
+            yy = np.tile(np.arange(4.0), m // 4 + 1)[:m] + 10 * r
+        ys += list(yy)
+    order = rng.permutation(len(vals))
+    c.X = pd.DataFrame({"f": np.array(vals, dtype=object)[order]})
+    c.y = pd.Series(np.array(ys)[order]) if c.kind == "continuous" else pd.Series(np.array(ys)[order].astype(int))
+    idx = gen.index_for(rng, len(vals))
+    c.X.index = idx
+    c.y.index = idx
+    c.qual = ["f"]
+    c.config = {"min_freq": 0.05, "max_n_mod": 2, "min_freq_mod": 0.3, "dropna": True, "output_dtype": gen.pick(rng, ["float", "str"]), "copy": True,
+                "sort_by": "kruskal" if c.kind == "continuous" else gen.pick(rng, ["tschuprowt", "cramerv"])}
+    c.meta = {"ftype": "cat", "family": "tie_split", "shares": list(shares), "names": names}
+    return c
+
+
 def run_case(tier, seed, i):
     rng = gen.rng_for(ID, tier, seed, i)
     r0 = rng.random()
-    if r0 < 0.25:
+    if r0 < 0.1:
+        case = tie_split_case(rng)
+    elif r0 < 0.25:
         # exact ties of target rate between modalities: the tie-break must not depend on row order or index labels
         case = gen.single_feature_case(rng, exact=True, ftype=gen.pick(rng, ["cat", "cat", "ord", "quant"]), with_dev=False)
         case.config["min_freq"] = gen.pick(rng, [0.05, 0.1])
